@@ -180,6 +180,25 @@ func (ex *Exec) loopEnv(st *State, lp *Loop, phiVals map[*ssa.Phi]Term) *Env {
 			}
 		}
 		if !bound {
+			// the variable was renamed: if exactly one loop-carried variable of the binder's sort is claimed by no
+			// binder of the loop contract, it is the one
+			claimed := map[string]bool{}
+			for _, ob := range lp.Con.Binders {
+				claimed[ob.Name] = true
+			}
+			want := st.u().sortOf(ex.typeOfBinder(ex.con, b))
+			var cand []*ssa.Phi
+			for _, in := range lp.Header.Instrs {
+				if phi, ok := in.(*ssa.Phi); ok && phi.Comment != "rangeindex" && !claimed[phi.Comment] && st.u().sortOf(phi.Type()) == want {
+					cand = append(cand, phi)
+				}
+			}
+			if len(cand) == 1 {
+				e.vars[b.Name] = BVal{Val: phiVals[cand[0]]}
+				bound = true
+			}
+		}
+		if !bound {
 			ex.abort("STALE-CONTRACT: loop %d binder %s matches no loop-carried variable", lp.N, b.Name)
 		}
 	}
